@@ -99,7 +99,9 @@ def propagate(data, d, medium_index=None, illum_wavelen=None, cfsp=0,
         data, d, med_wavelen, cfsp=cfsp, gradient_filter=gradient_filter)
 
     ft = fft(data)
-    res = ifft(ft.squeeze('z') * G)
+    if 'z' in ft.dims:
+        ft = ft.squeeze('z')
+    res = ifft(ft * G)
 
     # we may have lost coordinate values to floating point precision
     # during fft/ifft
